@@ -98,8 +98,9 @@ def tlc_verdict(c, res, model, what):
         path = " -> ".join("%s@%s" % (s.get("proc"), s["src"]) for s in steps if s.get("src") and s.get("node") in
                            ("test", "mut", "flag", "sqlopen", "sqlstep", "exec", "cb", "run", "mkrs"))
         last = steps[-1] if steps else {}
+        last_src = next((s_.get("src") for s_ in reversed(steps) if s_.get("src")), None)
         text = ("%s violated on the model extracted from %s: %s in %s at %s (%s) with isQuery=%s nestedView=%s; path: %s" % (
-            res.violation, vlib.REPO, viol.get("kind"), viol.get("proc"), viol.get("src") or last.get("src"), viol.get("what"),
+            res.violation, vlib.REPO, viol.get("kind"), viol.get("proc"), viol.get("src") or ("after " + str(last_src)), viol.get("what"),
             last.get("isQuery"), last.get("nestedView"), path[-900:]))
         c.violation(sig, {"property": res.violation, "violation": viol, "cfg": res.cfg, "steps": steps}, text)
         return False
@@ -211,6 +212,9 @@ def run(c):
                      "restoring a recovery point / dropping events back to a count taken inside the read-only section is the identity when nothing was written in between",
                      "sqlite refuses writes on a read-only connection; LuaJIT brackets every view function with lj_internal_view_start/_end, also on errors",
                      "getLuaExecContext does not fail while a contract function runs", "TLC 1.8.0"]
+    if os.environ.get("VERIF_REPLAY"):
+        c.notes.append("replay %s: a C20 replay is a path through source lines; re-checking it = re-extracting the model from the "
+                       "current tree and re-running TLC, which is what this run does" % os.environ["VERIF_REPLAY"])
     exe = build_extractor(c)
     gen_dir = os.path.join(c.work, "gen")
     rc, out, model = extract(exe, vlib.REPO, gen_dir)
